@@ -241,3 +241,26 @@ Section DefaultChain.
       + exact RE.
   Qed.
 End DefaultChain.
+
+(** * from its_list to smarts_list, for any reactor: an ITS of its_list whose two sides RDKit writes as [r] and [p] gives the
+    reaction string (turned round when the reactor runs backwards) *)
+Lemma smarts_contains (engine : sarg -> option N -> bool -> C06_Model.graph -> C06_Model.graph -> outcome)
+    (rematch : nat -> hostg -> molg -> list C03_Model.mapping) (ser : nat -> its -> option bytes * option bytes)
+    (o : ropts) (host : hostg) (rule : triple) (gs : list its) (T : its) (i : nat) (r p : bytes) :
+  fst (read_its engine rematch o host rule fresh) = Some gs ->
+  nth_error gs i = Some T -> ser i T = (Some r, Some p) -> r ++ arrow ++ p <> [] -> no_gt r -> no_gt p ->
+  exists ss, fst (read_smarts engine rematch ser o host rule fresh) = Some ss /\
+             In (if o_invert o then p ++ arrow ++ r else r ++ arrow ++ p) ss.
+Proof.
+  intros Ei En Es Hne Hr Hp. exists (smarts_of ser o gs). split.
+  - unfold read_smarts. cbn [fresh s_smarts]. destruct (read_its engine rematch o host rule fresh) as [og st1].
+    simpl in Ei. subst og. reflexivity.
+  - unfold smarts_of.
+    assert (Hin : In (r ++ arrow ++ p) (flat_map truthy (mapi (fun i g => to_smarts (ser i g)) gs))).
+    { apply in_flat_map. exists (Some (r ++ arrow ++ p)). split.
+      - pose proof (in_mapi_nth (fun i g => to_smarts (ser i g)) gs i T En) as Q. simpl in Q. rewrite Es in Q. exact Q.
+      - unfold truthy. destruct (r ++ arrow ++ p) as [|c s] eqn:E; [contradiction Hne; reflexivity|]. left. reflexivity. }
+    destruct (o_invert o).
+    + rewrite <- (reverse_reaction_swaps r p Hr Hp). apply in_map. exact Hin.
+    + exact Hin.
+Qed.
